@@ -2,19 +2,19 @@ package sim
 
 // WorkerSpec tells a worker process what to do (file named by VERIF_SPEC).
 type WorkerSpec struct {
-	Mode        string `json:"mode"` // search | replay | minimise
-	Prop        string `json:"prop"`
-	Seed        uint64 `json:"seed"`
-	From        uint64 `json:"from"`
-	To          uint64 `json:"to"`
-	Out         string `json:"out"`
-	SampleEvery uint64 `json:"sample_every"`
+	Mode        string   `json:"mode"` // search | replay | minimise
+	Prop        string   `json:"prop"`
+	Seed        uint64   `json:"seed"`
+	From        uint64   `json:"from"`
+	To          uint64   `json:"to"`
+	Out         string   `json:"out"`
+	SampleEvery uint64   `json:"sample_every"`
 	Only        []uint64 `json:"only,omitempty"` // search: run only these indices (determinism re-execution)
-	Scenario    string `json:"scenario,omitempty"`
-	Sig         string `json:"sig,omitempty"`
-	Race        bool   `json:"race,omitempty"`
-	MaxViol     int    `json:"max_viol,omitempty"`
-	Trace       bool   `json:"trace,omitempty"`
+	Scenario    string   `json:"scenario,omitempty"`
+	Sig         string   `json:"sig,omitempty"`
+	Race        bool     `json:"race,omitempty"`
+	MaxViol     int      `json:"max_viol,omitempty"`
+	Trace       bool     `json:"trace,omitempty"`
 }
 
 // Line is one JSON line of worker output.
@@ -47,4 +47,3 @@ type Summary struct {
 	Samples     []*Scenario    `json:"samples,omitempty"`
 	ViolRuns    int            `json:"viol_runs"`
 }
-
